@@ -301,6 +301,13 @@ def run(ctx):
                 if isinstance(x, ast.Subscript) and \
                         isinstance(x.value, ast.Name) and x.value.id == elem:
                     uses.append(x)
+                if isinstance(x, ast.Call) and \
+                        isinstance(x.func, ast.Attribute) and \
+                        isinstance(x.func.value, ast.Name) and \
+                        x.func.value.id == elem and x.func.attr in (
+                            'get', 'setdefault', 'update', 'items', 'keys',
+                            'values', 'pop'):
+                    uses.append(x)
             if not uses:
                 continue
             n_loops += 1
@@ -338,6 +345,41 @@ def run(ctx):
                          'scalar value' % (elem, elem), ctx.loc(f, u), why)
     if n_loops < 3:
         raise AnalysisError('C14.R6: only %d raw loops found' % n_loops)
+    # the workflow's type is forced onto every task (it selects the task
+    # spec class): a task-level `type` must not survive
+    wsi = prog.func('mistral.lang.v2.workflows.WorkflowSpec.__init__')
+    forced = False
+    for lp in [n for n in own_nodes(wsi.node) if isinstance(n, ast.For)]:
+        names = [x.id for x in ast.walk(lp.target)
+                 if isinstance(x, ast.Name)]
+        for st in ast.walk(lp):
+            if isinstance(st, ast.Assign) and len(st.targets) == 1 and \
+                    isinstance(st.targets[0], ast.Subscript) and \
+                    isinstance(st.targets[0].value, ast.Name) and \
+                    st.targets[0].value.id in names and \
+                    isinstance(st.targets[0].slice, ast.Constant) and \
+                    st.targets[0].slice.value == 'type' and \
+                    norm(st.value) == 'self._type':
+                forced = True
+    r6.check(forced, ctx.construct(wsi, extra="task['type'] forced"),
+             "the workflow type is not assigned to every task's 'type' "
+             "(a task-level type that disagrees with the workflow builds "
+             "the other task spec class: AttributeError in semantic "
+             "validation instead of a definition error)", ctx.loc(wsi))
+    # text slicing of workbook members: the header is found by equality
+    pd = prog.func(PARSER + '._parse_def_from_wb')
+    pcfg = ctx.cfg(pd)
+    hdr = [x for x in pcfg.nodes if x.kind == 'stmt' and
+           isinstance(x.ast, ast.Assign) and
+           dotted(x.ast.targets[0]) == 'ident' and
+           not isinstance(x.ast.value, ast.Constant)]
+    r6.check(bool(hdr) and all(
+        U.guarded(pcfg, x, 'item_name == __l.strip()', True) for x in hdr),
+        ctx.construct(pd, extra='header matched exactly'),
+        'the workflow/action header inside a workbook is not matched by '
+        'equality with "<name>:" (a prefix / substring match picks an '
+        'earlier key that merely starts with the name: the stored '
+        'definition text is a fragment of another workflow)', ctx.loc(pd))
     # the polymorphic discriminator is used as a dict key before validation
     icfg = ctx.cfg(isp)
     keyuse = [x for x in icfg.nodes if x.kind == 'stmt' and
